@@ -34,6 +34,7 @@ type Engine struct {
 	funcByKey  map[string]*ssa.Function // pkgpath + " " + relstring
 	sweepMode  bool
 	lockChecks bool
+	rekeyed    []string // closure contracts moved to another ordinal by their call anchors (rekey.go)
 	srcCache   map[string][]string
 	srcMu      sync.Mutex
 	modsets    map[*ssa.Function]*ModSet
@@ -147,6 +148,7 @@ func LoadEngine(repo string) (*Engine, error) {
 		}
 	}
 	e.expandGlobContracts()
+	e.rekeyClosures()
 	e.impliedRecoverContracts()
 	// package-level function variables initialised once with a function (timeNow = time.Now) are NOT resolved: tests replace them.
 	return e, nil
